@@ -358,3 +358,27 @@ void bad_range_fb__fb_read_bin(fb_t a, const uint8_t *bin, size_t len) {
 		bn_free(t);
 	}
 }
+
+/* a full-length input with tag 0 is accepted as the identity without reading the body */
+void bad_dec_cover__early_infty__ep_read_bin(ep_t a, const uint8_t *bin, size_t len) {
+	if (len != (2 * RLC_FP_BYTES + 1)) {
+		RLC_THROW(ERR_NO_BUFFER);
+		return;
+	}
+	if (bin[0] == 0) {
+		ep_set_infty(a);
+		return;
+	}
+	if (bin[0] != 4) {
+		RLC_THROW(ERR_NO_VALID);
+		return;
+	}
+	a->coord = BASIC;
+	fp_set_dig(a->z, 1);
+	fp_read_bin(a->x, bin + 1, RLC_FP_BYTES);
+	fp_read_bin(a->y, bin + RLC_FP_BYTES + 1, RLC_FP_BYTES);
+	if (!ep_on_curve(a)) {
+		RLC_THROW(ERR_NO_VALID);
+		return;
+	}
+}
